@@ -82,6 +82,8 @@ type FmtComment struct {
 	Text string `json:"text"`
 	Ctx  string `json:"ctx"`
 	Slot int    `json:"slot"`
+	// Alone: the only comment at its placeholder
+	Alone bool `json:"alone,omitempty"`
 }
 
 type FmtCase struct {
@@ -139,7 +141,7 @@ func genFmtCase(t *rapid.T, slots func(gen.Tok) bool) FmtCase {
 	r := g.Layout(gen.Tokens(p.Decls))
 	c.Src = r.Src
 	for _, pc := range r.Comments {
-		c.Comments = append(c.Comments, FmtComment{Text: pc.Text, Ctx: pc.Ctx, Slot: int(pc.Slot)})
+		c.Comments = append(c.Comments, FmtComment{Text: pc.Text, Ctx: pc.Ctx, Slot: int(pc.Slot), Alone: pc.Alone})
 	}
 	return c
 }
@@ -373,7 +375,7 @@ type fmtFeat struct {
 // lineCommentSafeCtx: placeholders at which the formatter of the tree the finding was recorded on handles a
 // `#`/`//` comment correctly (it prints the `else` keyword on a new line): a failure of a case whose inline
 // line comments all sit there is not covered by the known finding fmt.line-comment-at-inline-placeholder.
-var lineCommentSafeCtx = gen.LineCommentSafeCtx
+var _ = gen.LineCommentSafeCtx // see gen.LineCommentSafe (placeholder and "only comment there")
 
 // lineCommentFindingApplies: the known finding explains a failure of the case when (a) the same case with the
 // inline `#`/`//` comments written as block comments holds (causal test), and (b) at least one of those
@@ -381,7 +383,7 @@ var lineCommentSafeCtx = gen.LineCommentSafeCtx
 func lineCommentFindingApplies(c FmtCase, holds func(src string) bool) bool {
 	unsafe := false
 	for _, pc := range c.Comments {
-		if isInlineLineComment(pc) && !lineCommentSafeCtx[pc.Ctx] {
+		if isInlineLineComment(pc) && !gen.LineCommentSafe(pc.Ctx, pc.Alone) {
 			unsafe = true
 		}
 	}
@@ -395,7 +397,7 @@ func lineCommentFindingApplies(c FmtCase, holds func(src string) bool) bool {
 // hasUnsafeInlineLineComment: some `#`/`//` comment sits at an inline placeholder that is not known to be handled correctly.
 func hasUnsafeInlineLineComment(c FmtCase) bool {
 	for _, pc := range c.Comments {
-		if isInlineLineComment(pc) && !lineCommentSafeCtx[pc.Ctx] {
+		if isInlineLineComment(pc) && !gen.LineCommentSafe(pc.Ctx, pc.Alone) {
 			return true
 		}
 	}
